@@ -55,6 +55,8 @@ type Route struct {
 	Params      []string    `json:"params"` // Case-sensitive param keys
 	Handlers    []Handler   `json:"-"`      // Ctx handlers
 	routeParser routeParser // Parameter parser
+	// custom constraints of the app(s) the route was registered in, for re-parsing when that app is mounted
+	customConstraints []CustomConstraint
 	// Data for routing
 	pos   uint32 // Position in stack -> important for the sort of the matched routes
 	use   bool   // USE matches path prefixes
@@ -283,10 +285,17 @@ func (app *App) addPrefixToRoute(prefix string, route *Route) *Route {
 		prettyPath = utils.TrimRight(prettyPath, '/')
 	}
 
+	// the route keeps the custom constraints it was declared with (those of the sub-app, which take
+	// precedence), followed by the ones of the app it is mounted in
+	customConstraints := make([]CustomConstraint, 0, len(route.customConstraints)+len(app.customConstraints))
+	customConstraints = append(customConstraints, route.customConstraints...)
+	customConstraints = append(customConstraints, app.customConstraints...)
+
 	route.Path = prefixedPath
 	route.path = RemoveEscapeChar(prettyPath)
-	parsedRaw := parseRoute(prefixedPath, app.customConstraints...)
-	route.routeParser = parseRoute(prettyPath, app.customConstraints...)
+	route.customConstraints = customConstraints
+	parsedRaw := parseRoute(prefixedPath, customConstraints...)
+	route.routeParser = parseRoute(prettyPath, customConstraints...)
 	route.routeParser.adoptConstraintData(&parsedRaw)
 	// the parameter names are those of the whole path, as for a route registered under the prefix
 	route.Params = parsedRaw.params
@@ -308,6 +317,8 @@ func (*App) copyRoute(route *Route) *Route {
 		// Path data
 		path:        route.path,
 		routeParser: route.routeParser,
+
+		customConstraints: route.customConstraints,
 
 		// misc
 		pos: route.pos,
@@ -376,6 +387,8 @@ func (app *App) register(methods []string, pathRaw string, group *Group, handler
 			routeParser: parsedPretty,
 			Params:      parsedRaw.params,
 			group:       group,
+
+			customConstraints: app.customConstraints,
 
 			Path:     pathRaw,
 			Method:   method,
